@@ -47,6 +47,12 @@ int main() {
             case 5: gett(B, v); gett(C, v + N); TorusPolynomial_ifft(L, B); TorusPolynomial_ifft(L + 1, C); LagrangeHalfCPolynomialAddTo(L, L + 1); TorusPolynomial_fft(R, L); break;
             case 6: gett(B, v); TorusPolynomial_ifft(L, B); LagrangeHalfCPolynomialAddTorusConstant(L, (int32_t) v[N]); TorusPolynomial_fft(R, L); break;
             case 7: LagrangeHalfCPolynomialSetTorusConstant(L, (int32_t) v[0]); TorusPolynomial_fft(R, L); break;
+            // 16 / 17: as 6 / 7, the 32-bit constant handed over in a 64-bit register whose upper half holds other bits (the ABI leaves them unspecified:
+            //          a forwarding wrapper after truncation, a foreign-function binding); the last operand is that upper half
+            case 16: { typedef void (*F64)(LagrangeHalfCPolynomial *, long long); F64 volatile f = (F64) (void (*)(LagrangeHalfCPolynomial *, Torus32)) LagrangeHalfCPolynomialAddTorusConstant;
+                gett(B, v); TorusPolynomial_ifft(L, B); f(L, (long long) (((unsigned long long) (uint32_t) v[N + 1] << 32) | (uint32_t) (int32_t) v[N])); TorusPolynomial_fft(R, L); break; }
+            case 17: { typedef void (*F64)(LagrangeHalfCPolynomial *, long long); F64 volatile f = (F64) (void (*)(LagrangeHalfCPolynomial *, Torus32)) LagrangeHalfCPolynomialSetTorusConstant;
+                f(L, (long long) (((unsigned long long) (uint32_t) v[1] << 32) | (uint32_t) (int32_t) v[0])); TorusPolynomial_fft(R, L); break; }
             case 8: LagrangeHalfCPolynomialClear(L); TorusPolynomial_fft(R, L); break;
             case 9: geti(A, v); gett(B, v + N); gett(C, v + 2 * N); IntPolynomial_ifft(L, A); TorusPolynomial_ifft(L + 1, B); TorusPolynomial_ifft(L + 2, C);
                 LagrangeHalfCPolynomialSubMul(L + 2, L, L + 1); TorusPolynomial_fft(R, L + 2); break;
